@@ -12,7 +12,9 @@ cd /verif/.build/ocaml
 if [ ! -x model_driver ] || [ -n "$(find /verif/coq /verif/driver \( -name '*.vo' -o -name '*.ml' -o -name 'Extract.v' \) -newer model_driver 2>/dev/null | head -1)" ]; then
   timeout 600 coqc -Q /verif/coq Ase -w -all /verif/coq/Extract/Extract.v -o /verif/.build/ocaml/Extract.vo >/dev/null
   cp /verif/driver/main.ml .
-  timeout 600 ocamlfind ocamlopt -O3 -rectypes -thread -package coq-core.kernel,unix -linkpkg model.mli model.ml main.ml -o model_driver 2>&1 | grep -i 'error' && exit 1
+  # linked under another name and renamed into place: a driver that is being executed by a running check is never half written
+  timeout 600 ocamlfind ocamlopt -O3 -rectypes -thread -package coq-core.kernel,unix -linkpkg model.mli model.ml main.ml -o model_driver.new 2>&1 | grep -i 'error' && exit 1
+  [ -x model_driver.new ] && mv -f model_driver.new model_driver
   [ -x model_driver ]
 fi
 echo "build_model: ok"
